@@ -85,7 +85,8 @@ class Data:
             self.bams[s] = synth.write_bam(os.path.join(self.dir, s + ".bam"), [(RG[s], s)], sample_reads(s))
         self.ploidy_file = os.path.join(self.dir, "ploidy.txt")
         with open(self.ploidy_file, "w") as f:
-            for s in samples:
+            # lines deliberately in another order than the samples: values must be looked up by name, never by position
+            for s in list(samples)[1:] + list(samples)[:1]:
                 f.write("%s\t%d\n" % (s, PLOIDY[s]))
 
     def bed_subset(self, names, fname):
